@@ -55,7 +55,13 @@ using namespace cds_utils;
 #include "utils/LogSequence.h"
 #include "utils/VByte.h"
 
+#ifdef LIBCSD_VERIF
+extern "C" unsigned long libcsd_verif_memalloc(void);
+#define MEMALLOC (libcsd_verif_memalloc())
+#endif
+#ifndef MEMALLOC
 #define MEMALLOC 32768
+#endif
 
 class StringDictionaryPFC : public StringDictionary {
 public:
